@@ -113,3 +113,13 @@ Proof.
     + rewrite H6. exact Hhi.
     + discriminate.
 Qed.
+
+Lemma impl_tables_match_spec :
+  Gen_Tables.LL_base = spec_LL_base /\ Gen_Tables.LL_bits = spec_LL_bits /\
+  Gen_Tables.ML_base = spec_ML_base /\ Gen_Tables.ML_bits = spec_ML_bits /\
+  (forall c, c < 32 -> of_row_ok c = true).
+Proof.
+  destruct gen_tables_match_spec as (H1 & H2 & H3 & H4 & _).
+  destruct of_tables_match_spec as (_ & _ & H5).
+  split; [exact H1|]. split; [exact H2|]. split; [exact H3|]. split; [exact H4|exact H5].
+Qed.
